@@ -56,6 +56,9 @@ def fw_model(events, *, keep=("SER", "LVL", "SERVO", "PASS")):
         elif kind == "SERVO_WRITE":
             out.append({"k": "SERVO", "pin": int(f[1]), "mode": "angle", "v": float(f[2]), "t": t})
         elif kind == "SERVO_WRITEUS":
+            if out and out[-1].get("mode") == "attach" and out[-1].get("pin") == int(f[1]) and not out[-1].get("parked"):
+                out[-1]["parked"] = True  # the emitter parks the servo at min pulse right after attach: part of configuration
+                continue
             out.append({"k": "SERVO", "pin": int(f[1]), "mode": "us", "v": float(f[2]), "t": t})
         elif kind == "SERVO_ATTACH":
             out.append({"k": "SERVO", "pin": int(f[1]), "mode": "attach", "v": float(f[2]), "t": t})
